@@ -47,6 +47,9 @@ def const_term(v):
             return T("int", n=v)
         return T("bigint", s=str(v))
     if isinstance(v, str):
+        if any(0xD800 <= ord(ch) <= 0xDFFF for ch in v):
+            # lone surrogates would be written with the same JSON escape as the real character
+            return T("str", s="<lone-surrogates>" + v.encode("utf-16-le", "surrogatepass").hex())
         return T("str", s=v)
     if isinstance(v, float):
         return T("float", s=repr(v))
